@@ -211,11 +211,13 @@ func zzC06Gate() {
 		switch {
 		case !metaComplete:
 			vAssert(!reached && isWire && werr.Code == jsonrpc.CodeInvalidParams, "C06.incomplete-meta-invalid-params")
+			vAssert(ss.state.InitializeParams == initParams && ss.state.InitializedParams == initdParams, "C06.rejected-meta-leaves-state")
 			vReach("incomplete-meta")
 		case !supported:
 			vAssert(!reached && isWire && werr.Code == CodeUnsupportedProtocolVersion, "C06.unsupported-version-code")
 			data, _ := vJSONOf(werr.Data).(UnsupportedProtocolVersionData)
 			vAssert(len(data.Supported) == len(supportedProtocolVersions) && data.Requested == version, "C06.unsupported-version-data")
+			vAssert(ss.state.InitializeParams == initParams && ss.state.InitializedParams == initdParams, "C06.rejected-meta-leaves-state")
 			vReach("unsupported-version")
 		case removed:
 			vAssert(!reached && isWire && werr.Code == jsonrpc.CodeMethodNotFound, "C06.removed-method-not-found")
